@@ -83,7 +83,7 @@ def kill_fn(run, f):
     if ar:
         for i, fld in enumerate(ar["variants"][0]["fields"]):
             t = f.ty(fld["ty"])
-            if t.k == "adt" and t.defn == "tokio::sync::mpsc::Sender" and t.args and t.args[0].is_adt("ControlSignal"):
+            if t.k == "adt" and t.defn == "tokio::sync::mpsc::Sender" and t.args and t.args[0].k == "adt" and t.args[0].defn == __import__("anchors").names(f).control:
                 ctrl_idx = i
     run.require(ctrl_idx is not None, "O6.1", "actorref-has-control-sender", "ActorRef has no Sender<ControlSignal> field", "ActorRef field #%s is Sender<ControlSignal>" % ctrl_idx)
     chan_ops = []
